@@ -3,7 +3,7 @@
 cd "$(dirname "$0")/.."
 rc=0
 for id in $(python3 -c "import json; print(' '.join(c['property_id'] for c in json.load(open('MANIFEST.json'))['checks']))"); do
-  ./check $id ${1:-quick} | tail -${2:-1} || rc=1
+  ./check $id ${1:-quick} 2>&1 | tail -${2:-1}; [ ${PIPESTATUS[0]} -eq 0 ] || { rc=1; echo "FAILED: $id"; }
 done
 rm -rf replays
 python3-vt - <<'PY'
